@@ -43,4 +43,12 @@ def denyAccessCopy (k p num elSize : Nat) : Option (Option (Nat × Nat)) :=
   | some 0 => some none
   | some q => some (some (q, num * elSize))
 
+/-- The copy path at the memory level, with `free_source_on_copy`: `memcpy(copy, src, n)` and only THEN
+`sandbox.free_in_sandbox(src)`.  `free` is whatever the sandbox's own allocator does to its memory when it
+gets the block back (guest code: arbitrary).  Result: the application's copy and the sandbox memory afterwards. -/
+def denyCopyMem (mem : Nat → Nat) (free : (Nat → Nat) → (Nat → Nat)) (q n : Nat) (freeSrc : Bool) :
+    List Nat × (Nat → Nat) :=
+  let copy := (List.range n).map fun i => mem (q + i)
+  (copy, if freeSrc then free mem else mem)
+
 end Rlbox
